@@ -577,7 +577,7 @@ pub fn run_parent(family: Family, tier_name: &str) -> i32 {
             "exhaustive": false,
         },
         "assumptions": [
-            "interleavings are explored at task-poll granularity on a single-threaded executor; futures-channel, Shared and async-lock are trusted to be linearizable",
+            "interleavings are explored at task-poll granularity on a single-threaded executor, plus the hook's preemption points (after each registry lock acquisition; a join handle that is not ready once); futures-channel, Shared and async-lock are trusted to be linearizable",
             "virtual time: the CPU is infinitely fast, time advances only when no task is runnable",
             "absence is not established: the search is a sample of programs x schedules"
         ],
